@@ -225,6 +225,10 @@ def entity_table():
         "ExtrudeSharedCurve": ("additive", lambda: cb.Extrude(face_shared_curve(), [0.1, 0.0, 0.5])),
         "SketchSharedCurve": ("sketch", sketch_shared_curve),
         "ExtrudedShapeSharedCurve": ("additive", lambda: cb.ExtrudedShape(sketch_shared_curve(), [0.1, 0.0, 1.0])),
+        # operations with corners that coincide (distinct Point objects at one position): a wedge whose face touches the
+        # axis, a loft to a collapsed top face
+        "WedgeOnAxis": ("additive", lambda: cb.Wedge(cb.Face([[0, 0, 0], [1, 0, 0], [1, 0.7, 0], [0, 0.5, 0]]), 0.2)),
+        "LoftCollapsedTop": ("additive", lambda: cb.Loft(cb.Face([[0, 0, 0], [1, 0, 0], [1, 1, 0], [0, 1, 0]]), cb.Face([[0.2, 0.2, 1], [0.8, 0.2, 1], [0.8, 0.2, 1], [0.2, 0.2, 1]]))),
         "Box": ("additive", lambda: cb.Box([0.1, 0.2, 0.3], [1.1, 0.9, 1.5])),
         "Grid": ("sketch", lambda: cb.Grid([0, 0, 0], [2, 1, 0], 2, 1)),
         "OneCoreDisk": ("sketch", lambda: cb.OneCoreDisk([0.2, 0.1, 0.0], [1.2, 0.1, 0.0], [0, 0, 1])),
@@ -274,7 +278,7 @@ def entity_table():
     return ent
 
 
-CHEAP = ["Point", "Face", "FaceAngle", "LoftSharedAngle", "LoftSharedAcrossFaces", "FaceSharedCurve", "ExtrudeSharedCurve", "SketchSharedCurve", "FaceSharedOrigin", "DiscreteCurve", "LinearInterpolatedCurve", "SplineInterpolatedCurve", "LineCurve", "CircleCurve", "LoftEdges", "Extrude", "Revolve", "Wedge", "OnCurveLoft", "Box", "Grid", "OneCoreDisk", "RevolvedShape", "ArcData", "OriginData", "AngleData", "SplineData", "PolyLineData", "OnCurveData"]
+CHEAP = ["Point", "Face", "FaceAngle", "LoftSharedAngle", "LoftSharedAcrossFaces", "FaceSharedCurve", "ExtrudeSharedCurve", "SketchSharedCurve", "WedgeOnAxis", "LoftCollapsedTop", "FaceSharedOrigin", "DiscreteCurve", "LinearInterpolatedCurve", "SplineInterpolatedCurve", "LineCurve", "CircleCurve", "LoftEdges", "Extrude", "Revolve", "Wedge", "OnCurveLoft", "Box", "Grid", "OneCoreDisk", "RevolvedShape", "ArcData", "OriginData", "AngleData", "SplineData", "PolyLineData", "OnCurveData"]
 
 
 def cases(tier, seed):
@@ -294,7 +298,9 @@ def cases(tier, seed):
         if tier == "thorough" and en in CHEAP:
             for a, b, c in itertools.product([t for t in tnames if not (en == "Point" and TRANSFORMS[t].get("origin", 0) is None)], repeat=3):
                 out.append({"entity": en, "seq": [a, b, c], "form": "method" if (tnames.index(a) + tnames.index(c)) % 2 == 0 else "list"})
-        out.append({"entity": en, "seq": [], "form": "copy"})
+        if en not in ("WedgeOnAxis", "LoftCollapsedTop"):
+            # (blocks with a collapsed edge cannot be graded, so the written-mesh part of the copy clause has no file)
+            out.append({"entity": en, "seq": [], "form": "copy"})
     out.append({"entity": "-", "seq": [], "form": "purity"})
     for ctor in SHARED_INPUT:
         out.append({"entity": ctor, "seq": [], "form": "shared_input"})
